@@ -17,7 +17,6 @@ CLAIMED = {
         technique='automata equivalence on compiler-extracted DFAs + MIR dataflow rules (static analysis)',
         engine='A+C',
     ),
-,
     'C13': dict(
         category='proof',
         text='Exact language inclusions on the compiled automata: every URI-family type ⊆ its IRI twin, full ⊆ reference types, URI family ⊆ ASCII '
